@@ -197,16 +197,7 @@ func validateCondition(typesys *typesystem.TypeSystem, tk *openfgav1.TupleKey) e
 				continue
 			}
 
-			if directlyRelatedType.GetRelationOrWildcard() != nil {
-				if directlyRelatedType.GetRelation() != "" && directlyRelatedType.GetRelation() != userRelation {
-					continue
-				}
-
-				if directlyRelatedType.GetWildcard() != nil && !tuple.IsTypedWildcard(tk.GetUser()) {
-					continue
-				}
-			} else if tuple.IsTypedWildcard(tk.GetUser()) {
-				// This is a wildcard tuple but the directlyRelatedType tuple is not for wildcard.
+			if !restrictionMatchesUserKind(directlyRelatedType, tk.GetUser(), userRelation) {
 				continue
 			}
 
@@ -233,7 +224,9 @@ func validateCondition(typesys *typesystem.TypeSystem, tk *openfgav1.TupleKey) e
 
 	validCondition := false
 	for _, directlyRelatedType := range typeRestrictions {
-		if directlyRelatedType.GetType() == userType && directlyRelatedType.GetCondition() == tk.GetCondition().GetName() {
+		if directlyRelatedType.GetType() == userType &&
+			directlyRelatedType.GetCondition() == tk.GetCondition().GetName() &&
+			restrictionMatchesUserKind(directlyRelatedType, tk.GetUser(), userRelation) {
 			validCondition = true
 			break
 		}
@@ -273,6 +266,22 @@ func validateCondition(typesys *typesystem.TypeSystem, tk *openfgav1.TupleKey) e
 	}
 
 	return nil
+}
+
+// restrictionMatchesUserKind returns true if the type restriction is of the same kind as the tuple's user:
+// a typed wildcard restriction (e.g. user:*) only matches a typed wildcard user, a userset restriction
+// (e.g. group#member) only matches a userset user with that relation, and a plain type restriction
+// (e.g. user) only matches a concrete object. A condition allowed on one kind of restriction must not
+// be accepted for (nor waived from) a user that only matches a different kind of restriction of the same type.
+func restrictionMatchesUserKind(restriction *openfgav1.RelationReference, user, userRelation string) bool {
+	switch {
+	case restriction.GetWildcard() != nil:
+		return tuple.IsTypedWildcard(user)
+	case restriction.GetRelation() != "":
+		return restriction.GetRelation() == userRelation
+	default:
+		return userRelation == "" && !tuple.IsTypedWildcard(user)
+	}
 }
 
 // FilterInvalidTuples filters out tuples that aren't valid according to the provided model.
